@@ -709,7 +709,7 @@ class RemoteStreamFlowPath(
             command = ["mkdir", "-m", f"{mode:o}"]
             if parents or exist_ok:
                 command.append("-p")
-            command.append(self.__str__())
+            command.append(shlex.quote(self.__str__()))
             result, status = await self.connector.run(
                 location=self.location, command=command, capture_output=True
             )
